@@ -3,6 +3,7 @@
 import os, sys, json, importlib
 sys.path.insert(0, os.path.dirname(os.path.abspath(__file__)))
 import vlib
+import check
 props = [json.loads(l) for l in open(os.path.join(vlib.VERIF, "properties.jsonl"))]
 checks, na = [], []
 for p in props:
@@ -24,7 +25,7 @@ for p in props:
         "evidence_file": "evidence/%s.json" % pid,
         "replay_cmd_template": "bin/check %s --replay {path}" % pid,
         "engine": "lean4-proof+correspondence",
-        "level_claimed": {"category": getattr(m, "LEVEL", "proof"), "text": m.LEVEL_TEXT, "design_ref": "DESIGN.md section 4, " + pid},
+        "level_claimed": {"category": (getattr(m, "LEVEL", "proof") if (getattr(m, "LEVEL", "proof") != "proof" or check.load_property(pid).THEOREMS) else "exploration"), "text": m.LEVEL_TEXT, "design_ref": "DESIGN.md section 4, " + pid},
         "level_note": m.LEVEL_NOTE,
         "technique": getattr(m, "TECHNIQUE", "Lean 4 theorems about an executable model + differential correspondence of model and implementation"),
     })
